@@ -90,6 +90,7 @@ func readerMachine(p *Prog, lines []string) *Machine {
 	m := NewMachine(p, nil)
 	installStringModels(m)
 	installFuncModels(m)
+	installUnicodeModels(m)
 	installIOGlobals(m)
 	m.Hooks["(*bufio.Reader).ReadString"] = func(m *Machine, st *State, call *ssa.CallCommon, args []Val) ([]Val, bool) {
 		if d, ok := args[1].(int64); !ok || d != '\n' {
